@@ -7,6 +7,7 @@ from helpers import (aggregates, arm, enum_switches, loop_of, must_pass, vexpr, 
 import genparser
 import grammarflow
 import guards
+import layout
 import perfile
 import rule_scopes
 
@@ -963,6 +964,8 @@ def run(ctx):
     ctx.run_rule('C02.7', 'T10', 'integer literals and tags', r_integer_literals, prog)
     ctx.run_rule('C02.8', 'T1', 'lexer modes, token text and character-wise consumption', r_lexer_modes, prog)
     ctx.run_rule('C02.9', 'T10', 'parse results are attached to the file they came from, on every path', perfile.r_results_attached_to_own_file, prog)
+    ctx.run_rule('C02.9b', 'T10', 'what one file defines or undefines is not seen by the next: every file is preprocessed with its own copy of the command-line symbols', perfile.r_symbols_per_file, prog)
+    ctx.run_rule('C02.8d', 'T3', 'layout: the lexer skips exactly the characters char::is_whitespace accepts', layout.r_whitespace_class, prog, ('slice',))
     ctx.run_rule('C02.10', 'T13', 'conditions under which grammar helpers report, return and mutate (precondition ledger)', r_helper_preconditions, prog)
     ctx.run_rule('C02.11', 'T13', 'conditions under which the Slice lexer consumes, returns and switches modes (precondition ledger)', r_lexer_preconditions, prog)
     ctx.run_rule('C02.12', 'T13', 'conditions under which a parsed file is handed back or dropped (precondition ledger of the parser entry points)', r_parser_entry, prog)
